@@ -370,3 +370,12 @@ pub fn entry_fingerprint(entry: &SignedEntry) -> [u8; 32] {
 pub fn empty_fingerprint() -> [u8; 32] {
     Fingerprint::empty().0
 }
+
+/// Subscribe a channel to the insert events of a replica handle obtained from
+/// `Store::open_replica` (whose `info` field is crate-private).
+pub fn replica_subscribe<I>(replica: &mut Replica<'_, I>, sender: async_channel::Sender<crate::Event>)
+where
+    I: std::ops::Deref<Target = ReplicaInfo> + std::ops::DerefMut,
+{
+    replica.info.subscribe(sender)
+}
